@@ -643,6 +643,15 @@ def boot_modules(proc):
     lpe.print = _noprint
     lpe.gc = types.SimpleNamespace(collect=lambda *a: 0)
     lpe.faulthandler = types.SimpleNamespace(is_enabled=lambda: True, enable=lambda *a, **k: None)
+    if proc.pid == 100 and RT.run is not None and RT.run.spec.get("watch_flag_looks"):
+        # observation only: when does the manager thread look at the kill_workers flag, and what does it see
+        _orig_look = lpe._ExecutorManagerThread.flag_executor_shutting_down
+
+        def _look(self, _orig=_orig_look):
+            RT.run.obs.notes.append(("mgr-flag-look", 100, RT.sched.now, bool(self.executor_flags.kill_workers),
+                                     RT.sched.steps))
+            return _orig(self)
+        lpe._ExecutorManagerThread.flag_executor_shutting_down = _look
     lutils.subprocess = fake_subprocess(proc)
     lsync.SemLock._rand = _NameSeq()
     mpsync.SemLock._rand = lsync.SemLock._rand
@@ -652,6 +661,12 @@ def boot_modules(proc):
         if run is not None and isinstance(msg, str) and msg.startswith(("Shutting down worker", "Memory leak", "Could not acquire", "Main process did not")):
             run.obs.notes.append(("mpinfo", _pid, RT.sched.now, msg[:48]))
     mpu.info = _info
+
+    def _debug(msg, *a, _pid=proc.pid):
+        run = RT.run
+        if run is not None and isinstance(msg, str) and msg.startswith(("found ", "closing call_queue")):
+            run.obs.notes.append(("mpdebug", _pid, RT.sched.now, msg[:48], RT.sched.steps))
+    mpu.debug = _debug
     mpu._close_stdin = lambda: None
     mpu._flush_std_streams = lambda: None
     mprt._resource_tracker = _StubMpTracker(proc)
